@@ -84,4 +84,56 @@ theorem envCore_isLS (hsq : IsSqrt sq) (hO : OrdOK n o) (hU : FactUnambiguous sq
     rw [hxv, hr, envCore_rtr, ← hres]
     exact h3
 
+
+/-! ### the regularisation list -/
+
+theorem OrdOK.invp_inj {n : ℕ} {o : EnvOrd} (hO : OrdOK n o) {a b : ℕ} (ha : a < n) (hb : b < n)
+    (h : o.invp.getD a 0 = o.invp.getD b 0) : a = b := by
+  rw [← hO.right a ha, ← hO.right b hb, h]
+
+/-- `min_x()` / nothing configured: all unknowns -/
+theorem regOK_all {n : ℕ} {o : EnvOrd} (hO : OrdOK n o) (reg : Reg) (hr : reg = .all ∨ reg = .none) :
+    RegOK n o reg (reg.toFinset n) := by
+  have hl : regList n o reg = (List.range n).map fun i => o.invp.getD i 0 := by
+    rcases hr with rfl | rfl <;> rfl
+  have hs : reg.toFinset n = Finset.univ := by rcases hr with rfl | rfl <;> rfl
+  refine ⟨?_, ?_, ?_⟩
+  · rw [hl]
+    refine List.Nodup.map_on ?_ List.nodup_range
+    intro a ha b hb h
+    exact hO.invp_inj (List.mem_range.1 ha) (List.mem_range.1 hb) h
+  · rw [hl]; intro k hk
+    obtain ⟨i, hi, rfl⟩ := List.mem_map.1 hk
+    exact hO.invp_lt i (List.mem_range.1 hi)
+  · intro j
+    rw [hs, hl]
+    simp only [Finset.mem_univ, true_iff]
+    exact List.mem_map.2 ⟨j.1, List.mem_range.2 j.2, rfl⟩
+
+/-- `min_x(n, list)` with a list of distinct valid (1-based) unknown numbers -/
+theorem regOK_subset {n : ℕ} {o : EnvOrd} (hO : OrdOK n o) (l : List ℕ) (hnd : l.Nodup)
+    (hl : ∀ k ∈ l, 1 ≤ k ∧ k ≤ n) : RegOK n o (.subset l) ((Reg.subset l).toFinset n) := by
+  have hrl : regList n o (.subset l) = l.map fun k => o.invp.getD (k - 1) 0 := rfl
+  refine ⟨?_, ?_, ?_⟩
+  · rw [hrl]
+    refine List.Nodup.map_on ?_ hnd
+    intro a ha b hb h
+    have h1 := hl a ha
+    have h2 := hl b hb
+    have := hO.invp_inj (by omega : a - 1 < n) (by omega : b - 1 < n) h
+    omega
+  · rw [hrl]; intro k hk
+    obtain ⟨i, hi, rfl⟩ := List.mem_map.1 hk
+    have := hl i hi
+    exact hO.invp_lt _ (by omega)
+  · intro j
+    rw [Reg.mem_toFinset_subset, hrl, List.mem_map]
+    constructor
+    · intro h; exact ⟨j.1 + 1, h, by simp⟩
+    · rintro ⟨k, hk, h⟩
+      have h1 := hl k hk
+      have := hO.invp_inj (by omega : k - 1 < n) j.2 h
+      have e : k = j.1 + 1 := by omega
+      rw [← e]; exact hk
+
 end Gama.Ls.Env
